@@ -376,6 +376,9 @@ impl TopicFilter {
                 } else {
                     return (true, 0);
                 }
+            } else if has_one {
+                // invalid topic filter: "/+x", "+" must occupy an entire level
+                return (true, 0);
             }
 
             byte_idx += c.len_utf8();
